@@ -130,10 +130,13 @@ def run_case(rng, tier, case):
             case.check('slp.setup_works', False, error='%s: %s' % (type(e).__name__, str(e)[:160]), boundary=k, S=S); return
         case.check('slp.setup_works', True)
         # ---------------- robust
+        # the robust scenario set: all price sets, or only the samples (the problem object is then set up with prices that are NOT in the set)
+        rob_idx = list(range(S + 1)) if rng.random() < 0.5 else list(range(1, S + 1))
+        case.feature('robust_set:' + ('with_setup_prices' if 0 in rob_idx else 'without_setup_prices'))
         try:
-            cs = P.create_cost_samples([{kk: np.asarray(v, float) for kk, v in p.items()} for p in allp], tg)
+            cs = P.create_cost_samples([{kk: np.asarray(v, float) for kk, v in allp[j].items()} for j in rob_idx], tg)
             opr = P.setup_optim_problem(pr0, tg)
-            res_rob = opr.optimize(target='robust', samples=cs)
+            res_rob = opr.optimize(target=gen.pick(rng, ['robust', 'robust', 'Robust']), samples=cs)
         except Exception as e:
             case.check('robust.setup_works', False, error='%s: %s' % (type(e).__name__, str(e)[:160])); res_rob = None; cs = None
     Vs = np.array([float(r_.value) for _, r_ in det])
@@ -217,16 +220,18 @@ def run_case(rng, tier, case):
         else:
             xr = np.asarray(res_rob.x, float)
             C = np.array([np.asarray(c, float) for c in cs])
-            ok_c = all(np.array_equal(C[j], det[j][0].c) for j in range(S + 1))
+            ok_c = all(np.array_equal(C[i], det[j][0].c) for i, j in enumerate(rob_idx))
             case.check('robust.cost_samples_are_scenario_costs', ok_c, S=S)
             def worst_case(y):
                 return float(np.min(-C @ y))
             wr = worst_case(xr)
             r_ = solve.residuals(det[0][0], xr)
             case.check('robust.solution_feasible', max(r_['bound'], r_['rows']) <= solve.TOL_FEAS, bound=r_['bound'], rows=r_['rows_by_class'])
-            for j in range(S + 1):
+            for j in rob_idx:
                 ws = worst_case(np.asarray(det[j][1].x, float))
-                case.check('robust.worst_case_at_least_single_scenario', wr >= ws - tol, nonvacuous=differ, robust_worst_case=wr, scenario=j, scenario_solution_worst_case=ws)
-            case.check('robust.worst_case_at_most_min_optimum', wr <= Vs.min() + tol, nonvacuous=differ, robust_worst_case=wr, min_scenario_optimum=float(Vs.min()))
+                case.check('robust.worst_case_at_least_single_scenario', wr >= ws - tol, nonvacuous=differ, robust_worst_case=wr, scenario=j, scenario_solution_worst_case=ws,
+                           set_contains_setup_prices=(0 in rob_idx))
+            vmin = float(min(Vs[j] for j in rob_idx))
+            case.check('robust.worst_case_at_most_min_optimum', wr <= vmin + tol, nonvacuous=differ, robust_worst_case=wr, min_scenario_optimum=vmin)
     case.event('make_slp', rec.counts['make_slp']); case.event('optimize', rec.counts['optimize'])
     case.nontrivial = bool(differ and 0 < nf < m and coupled)
